@@ -912,7 +912,7 @@ int main(int argc, char **argv)
 	sc.name = "rbc";
 	sc.real_components = "src/CachinKursawePetzoldShoupSEABP.cc (Broadcast, Deliver, DeliverFrom, setID/unsetID/recoverID), mpz_shash, mpz_srandom, libgmp, libgcrypt hash";
 	sc.stub_components = "aiounicast_select replaced by SimUnicast (in-memory per-link FIFO of integers, harness-controlled hand-over) except in full-stack runs (probe.fullstack_runs; 1 of 8 by default), where the real aiounicast_select frames every integer and a hand-over makes the bytes of one unit visible - optionally only up to an arbitrary byte for one receive call; wall clock; entropy (seeded PRNG behind gcry_* random entry points); Byzantine parties played by a real RBC instance behind a mutating link filter plus harness message injection";
-	sc.rule = "one case = seeded plan (n,t,Byzantine set and profile, channel script with nested/recovered IDs, 0..900 schedule ops: hand-over of one in-flight message on a chosen link, one Deliver/DeliverFrom step at a chosen party, script step, Byzantine injection, partition/heal) followed by a fault-free drain phase; distinct = distinct history fingerprint (hash over every send, hand-over, step and delivered value); non-trivial = at least one message was handed over or a fault fired";
+	sc.rule = "one case = seeded plan (n,t,Byzantine set and profile, transport = SimUnicast or (1 run in 16) the library's aiounicast_select framing every integer over simulated descriptors, channel script with nested/recovered IDs, 0..900 schedule ops: hand-over of one in-flight message on a chosen link, one Deliver/DeliverFrom step at a chosen party, script step, Byzantine injection, partition/heal) followed by a fault-free drain phase; distinct = distinct history fingerprint (hash over every send, hand-over, step and delivered value); non-trivial = at least one message was handed over or a fault fired";
 	sc.generate = rbc_generate;
 	sc.execute = rbc_execute;
 	sc.shrink_more = rbc_shrink_more;
